@@ -165,8 +165,8 @@ PROPS['C20'] = {
 }
 
 REPRM = 'harness.corr_repr'
-REPR_QUICK = [(REPRM, 'fam_repr_objects', 500, 16), (REPRM, 'fam_repr_states', 6000, 16), (ENVM, 'fam_gym_shipped', 84, 16)]
-REPR_THOROUGH = [(REPRM, 'fam_repr_objects', 0, 16), (REPRM, 'fam_repr_states', 300000, 16), (ENVM, 'fam_gym_shipped', 21 * 100, 16)]
+REPR_QUICK = [(REPRM, 'fam_repr_objects', 500, 16), (REPRM, 'fam_repr_states', 6000, 16), (REPRM, 'fam_space_contains', 4000, 16), (ENVM, 'fam_gym_shipped', 84, 16)]
+REPR_THOROUGH = [(REPRM, 'fam_repr_objects', 0, 16), (REPRM, 'fam_repr_states', 300000, 16), (REPRM, 'fam_space_contains', 200000, 16), (ENVM, 'fam_gym_shipped', 21 * 100, 16)]
 
 PROPS['C15'] = {
     'targets': ['GridVerse.Props.C15'],
@@ -182,7 +182,7 @@ PROPS['C16'] = {
     'targets': ['GridVerse.Props.C16'],
     'theorem_files': [('GridVerse/Props/C16.lean', 'C16_'), ('GridVerse/Props/C15.lean', 'C15_')] + AG('Objects'),
     'audit_prefix': 'C16_',
-    'families': {'quick': REPR_QUICK[:2], 'thorough': REPR_THOROUGH[:2]},
+    'families': {'quick': REPR_QUICK[:3], 'thorough': REPR_THOROUGH[:3]},
     'oracle_cases': {'quick': 4800, 'thorough': 200000},
     'trusted_base': ['float division (2p-n+1)/(n-1) is injective in p at grid sizes (the model compares exact fractions)'],
     'assumptions': ['equality is Python equality of grid objects (type, status, colour)'],
@@ -212,8 +212,8 @@ PROPS['C01'] = {
     'theorem_files': [('GridVerse/Props/C01.lean', 'C01_')] + AG('Objects', 'Actions'),
     'audit_prefix': 'C01_',
     'families': {
-        'quick': [(CORE, 'fam_trans_smallscope', 0, 16), (CORE, 'fam_trans_random', 3000, 16), (CORE, 'fam_reward', 1600, 16), (CORE, 'fam_term', 1600, 16), (ENVM, 'fam_env_shipped', 84, 16), (ENVM, 'fam_env_random', 640, 16)],
-        'thorough': DYN_THOROUGH + REW_THOROUGH[:2] + ENV_THOROUGH,
+        'quick': [(CORE, 'fam_trans_smallscope', 0, 16), (CORE, 'fam_trans_random', 3000, 16), (CORE, 'fam_reward', 1600, 16), (CORE, 'fam_term', 1600, 16), (ENVM, 'fam_env_shipped', 84, 16), (ENVM, 'fam_env_random', 640, 16), ('harness.corr_repr', 'fam_space_contains', 6000, 16)],
+        'thorough': DYN_THOROUGH + REW_THOROUGH[:2] + ENV_THOROUGH + [('harness.corr_repr', 'fam_space_contains', 300000, 16)],
     },
     'oracle_cases': {'quick': 3200, 'thorough': 200000},
     'trusted_base': ['finiteness of rewards: reward values are finite sums of the configured parameters and parameter x integer-distance products (the parameters themselves are assumed finite floats)'],
